@@ -14,13 +14,21 @@ type zzBlob struct {
 	present []bool
 	data    []byte
 	closed  bool
+	// failNextWrite: the next WriteAt fails without effect (symbolic fault)
+	failNextWrite bool
+	writes        int
 }
+
+const zzMaxBlocks = 4
 
 var zzBlobs = map[uintptr]*zzBlob{}
 var zzNextBlobFd uintptr = 100
 
 func zzNewBlob(blocks int) *zzBlob {
 	zzNextBlobFd++
+	if blocks < zzMaxBlocks {
+		blocks = zzMaxBlocks // room to grow: the logical size is the directory entry's Size
+	}
 	b := &zzBlob{fd: zzNextBlobFd, blocks: blocks, present: make([]bool, blocks), data: make([]byte, blocks*4096)}
 	zzBlobs[b.fd] = b
 	return b
@@ -28,22 +36,24 @@ func zzNewBlob(blocks int) *zzBlob {
 
 func (f *zzBlob) ReadAt(buf []byte, off int64) (int, error) {
 	for i := range buf {
-		x := int(off) + i
-		if x < len(f.data) {
-			buf[i] = f.data[x]
-		} else {
-			buf[i] = 0
-		}
+		buf[i] = 0
+	}
+	if int(off) < len(f.data) {
+		copy(buf, f.data[off:])
 	}
 	return len(buf), nil
 }
 
 func (f *zzBlob) WriteAt(buf []byte, off int64) (int, error) {
-	for i := range buf {
-		x := int(off) + i
-		if x < len(f.data) {
-			f.data[x] = buf[i]
-			f.present[x/4096] = true
+	if f.failNextWrite {
+		f.failNextWrite = false
+		return 0, zzErr("zz: injected data write failure")
+	}
+	f.writes++
+	if int(off) < len(f.data) {
+		n := copy(f.data[off:], buf)
+		for b := int(off) / 4096; b*4096 < int(off)+n; b++ {
+			f.present[b] = true
 		}
 	}
 	return len(buf), nil
